@@ -410,7 +410,7 @@ def build_trace(op: dict, sig_obs: list[list], calls: list[dict]) -> tuple[dict,
         if multi and nbody != 1:
             continue  # the overloads allow exactly one content argument
         args = [arg_record(sig[j], op, c["args"][sig[j]["py"]]) if j in supplied and c["args"][sig[j]["py"]] != "__none__" else dict(NOARG) for j in range(len(sig))]
-        recs.append({"cid": n, "args": args, "r": request_summary(c), "suspects": [], "_sup": {j for j in supplied if sig[j]["role"] == "param"}, "_raw": c})
+        recs.append({"cid": n, "args": args, "r": request_summary(c), "suspects": [], "want_expected": False, "_sup": {j for j in supplied if sig[j]["role"] == "param"}, "_raw": c})
     # suspects of a raising call: the supplied parameters without which the same method does send
     sent = [r for r in recs if r["r"]["n"] > 0]
     for r in recs:
@@ -433,8 +433,29 @@ def _first(lst, pred):
     return next((x for x in lst if pred(x)), None)
 
 
+def negative_needs(trace: dict, call: dict) -> set[str]:
+    """What a call offers for building negative traces (which corruptions of its reference request are possible)."""
+    needs = set()
+    for j, e in enumerate(trace["sig"]):
+        if e["role"] == "param":
+            p = trace["op"]["params"][e["target"] - 1]
+            if call["args"][j]["sup"]:
+                if p["in"] == "query" and p["type"] in ("str", "int", "date"):
+                    needs.add("q")
+                if p["in"] == "header" and p["type"] in ("str", "date"):
+                    needs.add("h")
+                if p["in"] == "path":
+                    needs.add("path")
+            elif p["in"] == "query":
+                needs.add("omq")
+        elif e["role"] == "body" and call["args"][j]["sup"]:
+            needs.add("body")
+    return needs
+
+
 def make_negatives(clean: list[tuple[dict, dict]]) -> list[dict]:
-    """clean: (trace, call) pairs whose real observation had no failing clause."""
+    """clean: (trace, call) pairs where call["r"] is the REFERENCE request of the call (Wire!ExpectedRequest, printed by the
+    monitor on demand) - the negatives do not depend on the code under test being right anywhere."""
     out = []
 
     def add(name, expect, trace, call, r):
@@ -494,6 +515,9 @@ def make_negatives(clean: list[tuple[dict, dict]]) -> list[dict]:
             if name not in done:
                 done.add(name)
                 add(name, expect, trace, call, rr)
+        if "reference_itself" not in done:
+            done.add("reference_itself")
+            add("reference_itself", "", trace, call, r)
     return out
 
 
@@ -541,6 +565,17 @@ def judge(chk: Check, items: list[tuple[dict, list[dict]]], label: str, negative
         part = items[start : start + CHUNK]
         traces = [t for t, _ in part]
         negs: list[dict] = []
+        if negatives and start == 0:
+            # ask the monitor for the reference request of a few calls that between them allow every corruption
+            missing = {"q", "h", "omq", "body", "path"}
+            for t in traces:
+                for call in t["calls"]:
+                    got = negative_needs(t, call) & missing
+                    if got:
+                        call["want_expected"] = True
+                        missing -= got
+                if not missing:
+                    break
         vs = run_monitor(chk, traces, f"{label}#{start // CHUNK}")
         clean: list[tuple[dict, dict]] = []
         for trace, recs in part:
@@ -567,8 +602,8 @@ def judge(chk: Check, items: list[tuple[dict, list[dict]]], label: str, negative
                 if a["query"] + a["header"] + a["cookie"] + a["path"] + a["body"] > 0:
                     chk.nontrivial({"op": op["id"], "sup": [x["sup"] for x in call["args"]]})
                 fails = v.get("fails") or []
-                if not fails:
-                    clean.append((trace, call))
+                if call.get("want_expected"):
+                    clean.append((trace, {**call, "want_expected": False, "r": v["expected"]}))
                 obs = {fkey(f["clause"], f["locus"], drop=("observed", "msgclass")) for f in fails}
                 mod = {fkey(f["clause"], f["locus"], drop=("observed", "msgclass")) for f in (v.get("model") or [])}
                 if obs != mod or v["model_dead"]:
@@ -596,6 +631,9 @@ def judge(chk: Check, items: list[tuple[dict, list[dict]]], label: str, negative
                 nv = run_monitor(chk, [n["trace"] for n in negs], f"{label}#negatives")
                 for n in negs:
                     got = [f["clause"] for f in nv[(n["trace"]["id"], 0)].get("fails") or []]
+                    if n["expect"] == "":
+                        chk.require(all(g == "C04.no_argument" for g in got), f"the reference request of a call is not accepted by the judge: {got}")
+                        continue
                     chk.require(n["expect"] in got, f"negative trace {n['name']} was not rejected with {n['expect']}: monitor said {got}")
                     chk.cov.setdefault("negative_traces_rejected", {})[n["name"]] = n["expect"]
     return drift
